@@ -25,6 +25,7 @@ if [ "$what" = ocaml ] || [ "$what" = all ]; then
   done
 fi
 if [ "$what" = go ] || [ "$what" = all ]; then
-  cd $V/harness && cp /repo/go.sum . && timeout 600 go build -tags verif -o $V/.work/bin/h .
+  R=${VERIF_REPO:-/repo}
+  cd $V/harness && cp $R/go.sum . && { [ "$R" = /repo ] || go mod edit -replace github.com/mit-pdos/go-nfsd=$R; } && timeout 600 go build -tags verif -o $V/.work/bin/h .
 fi
 echo BUILD-OK
